@@ -362,6 +362,15 @@ def check_history(tag, model, log, res):
     res.traces += 1
 
 
+COMPOSED_ORACLES = ('continuity', 'volume', 'fault')
+
+
+def _plan(ctx):
+    return [('alzr-small-grid', ctx.n(250, 1200)), ('nicral', ctx.n(50, 300)), ('alzr-nodiff', ctx.n(120, 400)), ('alzr-loaded@rk4', ctx.n(50, 170)),
+            ('nicral@rk4', ctx.n(30, 200)), ('alzr-loaded-dilute', ctx.n(200, 500)), ('nicral@2solves@rk4', ctx.n(30, 120)),
+            ('nicral-faults', ctx.n(160, 400))] + ([('alzr-fine-grid', 2500), ('almgsi-2phase-loaded', 200)] if ctx.thorough else [])
+
+
 def corr(ctx, oracle_only=False, nsynth=None):
     res = Result()
     res.rule = ('synthetic PrecipitateModel states (1-3 phases x 1-3 elements x 5 site types x 2 diffusion modes x scenarios normal/empty/'
@@ -422,10 +431,8 @@ def corr(ctx, oracle_only=False, nsynth=None):
                     v['case'] = full_case(r); break
     # the COMPOSED step (KWNFull.eulerStep, theorem eulerStep_conserves): every accepted step of real runs replayed with its
     # captured backend answers; the complete exit state incl. the recorded row must be the implementation's
-    if not oracle_only:
-        kwnfull.refine_scenarios(ctx, res, PROP, [('alzr-small-grid', ctx.n(250, 1200)), ('nicral', ctx.n(50, 300)),
-                                                  ('alzr-nodiff', ctx.n(120, 400)), ('alzr-loaded@rk4', ctx.n(50, 170)), ('nicral@rk4', ctx.n(30, 200)), ('alzr-loaded-dilute', ctx.n(200, 500)), ('nicral@2solves@rk4', ctx.n(30, 120)), ('nicral-faults', ctx.n(160, 400))] + ([('alzr-fine-grid', 2500)] if ctx.thorough else []) + ([('almgsi-2phase-loaded', 200)] if ctx.thorough else []),
-                                 oracles=('continuity', 'volume', 'fault'))
+    # in the oracle-only pass (search, replay) the scenarios run with their direct oracles, without the model
+    kwnfull.refine_scenarios(ctx, res, PROP, _plan(ctx), oracles=COMPOSED_ORACLES, driver=not oracle_only)
     vlib.finish_guard(res)
     return res
 
@@ -436,6 +443,8 @@ def search(ctx, broken):
 
 def replay(ctx, entry):
     c = entry['violation']['case']
+    if 'scenario' in c or (isinstance(c.get('case'), dict) and 'scenario' in c['case']):
+        return kwnfull.replay_scenario(ctx, entry, PROP, _plan(ctx), COMPOSED_ORACLES, Result)
     if 'x' not in c:
         print('  replay needs the full record'); return None
     rec = dict(c)
